@@ -58,3 +58,35 @@ Example C13_older_sets :
   in_force (vrun [Begin V_Ieee1364_2001; Begin V_Ieee1800_2017; End_] []) = Some V_Ieee1364_2001 /\
   in_force (vrun [Begin V_Ieee1800_2017; Begin V_Ieee1800_2017; End_] []) = Some V_Ieee1800_2017.
 Proof. vm_compute. repeat split; reflexivity. Qed.
+
+(* keyword() consults the set in force (fix 7a74a81).  The guard's version -> table map is regenerated
+   from is_reserved_in_force; it agrees with is_keyword's wherever it selects a table, and selects none
+   exactly for the default, for "1800-2017" and for directive names. *)
+Theorem C13_keyword_guard_tables :
+  forallb (fun v => match guard_table_of v with
+                    | Some k => forallb (fun w => mem w (table_of v)) k && forallb (fun w => mem w k) (table_of v)
+                    | None => match v with None | Some V_Ieee1800_2017 | Some V_Directive => true | _ => false end
+                    end)
+          [None; Some V_Ieee1364_1995; Some V_Ieee1364_2001; Some V_Ieee1364_2001Noconfig; Some V_Ieee1364_2005;
+           Some V_Ieee1800_2005; Some V_Ieee1800_2009; Some V_Ieee1800_2012; Some V_Ieee1800_2017; Some V_Directive] = true.
+Proof. vm_compute. reflexivity. Qed.
+
+(* a word that is reserved only in a later standard than the one in force is refused as a keyword and
+   accepted by the identifier lexer, for every version and every word *)
+Theorem C13_later_word_is_identifier : forall v k t,
+  guard_table_of v = Some k -> mem t keywords_1800_2017 = true -> mem t k = false ->
+  keyword_allowed (guard_table_of v) keywords_1800_2017 t = false /\ lex_identifier k t = Some t.
+Proof. intros v k t. apply later_word_is_identifier. Qed.
+
+Theorem C13_reserved_word_stays_keyword : forall v t,
+  match guard_table_of v with Some k => mem t k = true \/ mem t keywords_1800_2017 = false | None => True end ->
+  keyword_allowed (guard_table_of v) keywords_1800_2017 t = true.
+Proof. intros v t. apply reserved_word_stays_keyword. Qed.
+
+Example C13_signed_1995 :
+  keyword_allowed (guard_table_of (Some V_Ieee1364_1995)) keywords_1800_2017 "signed" = false /\
+  keyword_allowed (guard_table_of (Some V_Ieee1364_2001)) keywords_1800_2017 "signed" = true /\
+  keyword_allowed (guard_table_of (Some V_Ieee1364_1995)) keywords_1800_2017 "reg" = true /\
+  keyword_allowed (guard_table_of None) keywords_1800_2017 "logic" = true /\
+  keyword_allowed (guard_table_of (Some V_Ieee1364_1995)) keywords_1800_2017 "1step" = true.
+Proof. vm_compute. repeat split; reflexivity. Qed.
